@@ -7,7 +7,8 @@
    that part is tied by the metamorphic correspondence on the real code (tools/props/c10.py). *)
 From Coq Require Import List NArith ZArith Bool String.
 From Verif Require Import Base.Res Gen.GenOpcodes Gen.GenSpelling Model.CIDict Model.SkipWs Model.Spelling
-  Proofs.SpellingP Proofs.SpellingNumP.
+  Proofs.SpellingP Proofs.SpellingNumP Proofs.SpellingLexAgree Proofs.SpellingShared.
+From Verif Require Model.Lexer Spec.Arith Model.ExprParse Model.Directives Proofs.DirectivesData.
 Import ListNotations.
 Open Scope N_scope.
 Open Scope list_scope.
@@ -124,12 +125,24 @@ Theorem C10_number_spellings :
 Proof. exact number_spellings. Qed.
 Print Assumptions C10_number_spellings.
 
-(* ---------------------------------------------------------------- grouping *)
+(* the two models of parser.number() -- Model/Lexer.v (C05, token + sign) and Model/Spelling.v (C10, text with
+   sign, follower, skip_whitespace, ':' look-ahead) -- agree on every ASCII token ('^' l digits, or a run of
+   [A-Za-z0-9_$.]) followed by text that cannot continue it: C05_lex_spell and C10_number_spellings speak about
+   one function *)
+Theorem C10_lexers_agree :
+  forall (neg : bool) (tok rest : str), follow_ok rest = true ->
+  ((exists l ds, tok = 94 :: l :: ds /\ l < 128 /\ forallb is_tokch ds = true) \/ (tok <> [] /\ forallb is_tokch tok = true)) ->
+  abs_s (lex_number (with_sign neg (tok ++ rest))) = Some (abs_l (Lexer.lex_number neg (str_of tok))).
+Proof. exact lexers_agree. Qed.
+Print Assumptions C10_lexers_agree.
+
+(* ---------------------------------------------------------------- grouping: on the Spec evaluator (Spec/Arith.v) and on
+   the model of resolve() over the parser's tree (Model/ExprParse.v), the ones C05 is about *)
 Theorem C10_grouping_irrelevant :
-  forall env dot un bin,
-  (forall f e, eval env dot un bin (regroup f e) = eval env dot un bin e) /\
-  (forall e, eval env dot un bin (ungroup e) = eval env dot un bin e).
-Proof. exact grouping_both. Qed.
+  (forall enc sym dot f e, Arith.eval enc sym dot (regroup_e f e) = Arith.eval enc sym dot e) /\
+  (forall enc sym dot e, Arith.eval enc sym dot (ungroup_e e) = Arith.eval enc sym dot e) /\
+  (forall encode sym dot f t, ExprParse.meval encode sym dot (regroup_p f t) = ExprParse.meval encode sym dot t).
+Proof. exact grouping_shared. Qed.
 Print Assumptions C10_grouping_irrelevant.
 
 Theorem C10_group_operand_irrelevant :
@@ -159,10 +172,14 @@ Theorem C10_mnemonic_case_irrelevant :
 Proof. exact pattern_case_irrelevant. Qed.
 Print Assumptions C10_mnemonic_case_irrelevant.
 
-(* ---------------------------------------------------------------- '.word a, b' versus implicit list *)
+(* ---------------------------------------------------------------- '.word a, b' versus implicit list, on Model/Directives
+   (the model of C06): same diagnostics and bytes for every non-empty list, all values (also out of range) and
+   all addresses (also odd), and the same announced size *)
 Theorem C10_word_list_same :
-  forall gai16 odd vals, vals <> [] -> emit_word_list gai16 odd vals = emit_word_directive gai16 odd vals.
-Proof. exact word_list_same. Qed.
+  forall enc (vs : list Z) (addr : Z), vs <> [] ->
+  Directives.emit enc (Directives.DWordList vs) addr = Directives.emit enc (Directives.DMeta ".word" (DirectivesData.plain vs)) addr /\
+  Directives.announced (Directives.DWordList vs) = Directives.announced (Directives.DMeta ".word" (DirectivesData.plain vs)).
+Proof. exact word_list_same_directives. Qed.
 Print Assumptions C10_word_list_same.
 
 (* ---------------------------------------------------------------- non-vacuity *)
@@ -197,3 +214,18 @@ Proof. vm_compute. repeat split; reflexivity. Qed.
 
 Example C10_ex_synonym : pattern_of (s2n "BHIS") = Some "103[0oo]oo"%string /\ pattern_of (s2n "bcc") = Some "103[0oo]oo"%string.
 Proof. vm_compute. split; reflexivity. Qed.
+
+Example C10_ex_lexers :          (* "-0X1f" then ", x" : both models read -31 *)
+  abs_s (lex_number (with_sign true ([48; 88; 49; 102] ++ [44; 32; 120]))) = Some (ANum (-31) false false) /\
+  abs_l (Lexer.lex_number true (str_of [48; 88; 49; 102])) = ANum (-31) false false.
+Proof. vm_compute. split; reflexivity. Qed.
+
+Example C10_ex_word_list :       (* at an odd address, with an out-of-range-free list *)
+  Directives.emit Directives.bk_enc (Directives.DWordList [1; -2]%Z) 513%Z
+  = Directives.emit Directives.bk_enc (Directives.DMeta ".word" (DirectivesData.plain [1; -2]%Z)) 513%Z.
+Proof. vm_compute. reflexivity. Qed.
+
+Example C10_ex_grouping :        (* (1 + 2) * 3 with ( ) restyled to < > *)
+  regroup_e (fun _ => Arith.Angle) (Arith.Bin Arith.BMul (Arith.Group Arith.Paren (Arith.Bin Arith.BAdd Arith.Dot Arith.Dot)) Arith.Dot)
+  = Arith.Bin Arith.BMul (Arith.Group Arith.Angle (Arith.Bin Arith.BAdd Arith.Dot Arith.Dot)) Arith.Dot.
+Proof. reflexivity. Qed.
